@@ -77,6 +77,18 @@ class NpShim:
         self._allclose = allclose
         self._cache = {}
 
+    def issubdtype(self, arg1, arg2):
+        """the object arrays of the symbolic run stand for float64 arrays: asked whether their dtype is a floating / inexact /
+        number type, the answer is the one float64 gets (code that treats float arrays specially must be followed there)"""
+        try:
+            is_obj = np.dtype(arg1) == np.dtype(object)
+        except TypeError:
+            is_obj = False
+        if is_obj and arg2 in (np.floating, np.inexact, np.number, float, np.float64):
+            USED.add("np.issubdtype(object -> float64)")
+            return np.issubdtype(np.float64, arg2)
+        return np.issubdtype(arg1, arg2)
+
     def errstate(self, **kw):
         """np.errstate(...) entered by the code under analysis: with divide / invalid / all = "ignore" the code handles zero
         divisors itself (usually with np.where around the quotient), so divisions inside the block do not assume their divisor
@@ -127,6 +139,11 @@ class NpShim:
     def _maybe_object(self, fn, obj, dtype, k):
         """np.array / asarray(..., dtype=float) of something holding symbols keeps them (object dtype)"""
         if dtype in (float, np.float64):
+            if fn == "asarray" and isinstance(obj, np.ndarray) and obj.dtype == object and _has_sym(obj) and not k:
+                # np.asarray(a, dtype=float) of a float64 array IS a (no copy): the object array standing for it is handed back
+                # itself, so that writes through the "converted" array reach the original as they do in float64
+                USED.add("np.asarray(dtype=float)->same object array")
+                return obj if isinstance(obj, SymArr) else obj.view(SymArr)
             probe = np.array(obj, dtype=object)
             if _has_sym(probe):
                 USED.add(f"np.{fn}(dtype=float)->object")
